@@ -167,7 +167,7 @@ _MADE = [0, 0]
 _WEBGUI = [None]
 
 
-def _mk(mode, hz, dcache, icache):
+def _mk(mode, hz, dcache, icache, via=None):
     from architecture_simulator.simulation.riscv_simulation import RiscvSimulation
 
     # every third simulation is built the way the web front end builds it (gui.webgui.get_riscv_simulation): a
@@ -180,8 +180,20 @@ def _mk(mode, hz, dcache, icache):
         except Exception:
             _WEBGUI[0] = False
     _MADE[1] += 1
-    if _WEBGUI[0] and _MADE[1] % 3 == 0:
-        return _WEBGUI[0]("".join(list("five_stage_pipeline" if mode == "five" else "single_stage_pipeline")), hz, cache_options(dcache), cache_options(icache))
+    if via is None:
+        via = "webgui" if _MADE[1] % 3 == 0 else "direct"
+    if _WEBGUI[0] and via == "webgui":
+        sim = _WEBGUI[0]("".join(list("five_stage_pipeline" if mode == "five" else "single_stage_pipeline")), hz, cache_options(dcache), cache_options(icache))
+        sim._vp_via = "webgui"
+        return sim
+    sim = _mk_direct(mode, hz, dcache, icache)
+    sim._vp_via = "direct"
+    return sim
+
+
+def _mk_direct(mode, hz, dcache, icache):
+    from architecture_simulator.simulation.riscv_simulation import RiscvSimulation
+
     return RiscvSimulation(
         mode="".join(list("five_stage_pipeline" if mode == "five" else "single_stage_pipeline")),
         detect_data_hazards=hz,
@@ -190,7 +202,7 @@ def _mk(mode, hz, dcache, icache):
     )
 
 
-def make_riscv(mode="single", hz=True, dcache=None, icache=None):
+def make_riscv(mode="single", hz=True, dcache=None, icache=None, via=None):
     """the simulation under test.  Every fifth call also builds - one before, one after it - a simulation with the
     OPPOSITE configuration (other hazard flag, other write policy / replacement policy, caches swapped) and keeps it
     alive: a simulation's configuration is its own and must not depend on what else lives in the process."""
@@ -204,7 +216,7 @@ def make_riscv(mode="single", hz=True, dcache=None, icache=None):
 
     if nb:
         _NEIGHBOURS.append(_mk("five", not hz, other(dcache), other(icache)))
-    sim = _mk(mode, hz, dcache, icache)
+    sim = _mk(mode, hz, dcache, icache, via)  # via: build a twin the same way its partner was built
     if nb:
         _NEIGHBOURS.append(_mk("five" if mode != "five" else "single", not hz, other(icache), other(dcache)))
         del _NEIGHBOURS[:-4]
